@@ -74,8 +74,10 @@ func (r *Run) finishChild() {
 	}
 	if err != nil {
 		fmt.Fprintf(os.Stderr, "child partial: %v\n", err)
+		removeScratch()
 		os.Exit(3)
 	}
+	removeScratch()
 	os.Exit(0)
 }
 
